@@ -301,3 +301,12 @@ Proof.
   split; [exact toy_float_time_laws|]. split; [exact (c09_leaf_laws _ toy_float_time_laws)|].
   split; [exact c09_leaf_eq|]. vm_compute. repeat apply conj; reflexivity.
 Qed.
+
+(* a negative integer literal below MinInt64 is read as a float64 (since repair F09-3; it was an error), like
+   the literals beyond uint64; MinInt64 itself stays an integer *)
+Example W_json_negint_below_int64 :
+  let T := mktables [] [] [([45; 57; 50; 50; 51; 51; 55; 50; 48; 51; 54; 56; 53; 52; 55; 55; 53; 56; 48; 57], 14114281232179134464)] [] in
+  let D := mkdopts false false false false 0 in
+  dec_naked (c09_leaf T) D 10 [45; 57; 50; 50; 51; 51; 55; 50; 48; 51; 54; 56; 53; 52; 55; 55; 53; 56; 48; 57] = Ok (IF64 14114281232179134464, []) /\
+  dec_naked (c09_leaf T) D 10 [45; 57; 50; 50; 51; 51; 55; 50; 48; 51; 54; 56; 53; 52; 55; 55; 53; 56; 48; 56] = Ok (IInt (-9223372036854775808), []).
+Proof. vm_compute. split; reflexivity. Qed.
